@@ -469,12 +469,30 @@ def selftest_calc(calc_factory, atoms: Atoms, h: float = 1e-5, tol: float = 1e-6
 
 
 # --------------------------------------------------------------------------- exchange-call counter
-EXCH = {"ok": 0, "second_started": False, "installed": False}
+EXCH = {"ok": 0, "second_started": False, "installed": False, "seq": [], "second_crashed": False}
+
+
+def exch_reset():
+    EXCH["ok"] = 0
+    EXCH["second_started"] = False
+    EXCH["seq"] = []
+    EXCH["second_crashed"] = False
+
+
+def exch_finding_applies() -> bool:
+    """Did the trial that just ended exercise the listed finding 'two exchange moves act in one plain composite trial'?
+    Its mechanism is the second move working on labels / pending indices that are only brought up to date after the
+    trial.  One order is consistent on the pinned code and is NOT the finding: a deletion followed by an insertion
+    (the deleted rows are recorded in pre-trial coordinates, the inserted atoms are appended after the removal).
+    Everything else with two or more successful exchange calls is, and so is an exception raised inside an exchange
+    move that started after another one had already acted."""
+    seq = EXCH["seq"]
+    return (len(seq) >= 2 and seq != ["del", "ins"]) or bool(EXCH["second_crashed"])
 
 
 def install_exchange_counter():
-    """Count successful ExchangeMove calls (class-attribute wrap); monitors read and reset EXCH['ok'] per trial
-    to recognise the history 'two exchange moves succeeded inside one plain composite trial'."""
+    """Record the successful ExchangeMove calls of a trial (class-attribute wrap) with their direction; monitors read
+    and reset the record per trial (exch_reset) to recognise the listed finding (exch_finding_applies)."""
     if EXCH["installed"]:
         return
     from quansino.moves.exchange import ExchangeMove
@@ -482,11 +500,19 @@ def install_exchange_counter():
     orig = ExchangeMove.__dict__["__call__"]
 
     def call(self, context):
-        if EXCH["ok"] >= 1:
+        second = EXCH["ok"] >= 1
+        if second:
             EXCH["second_started"] = True  # a second exchange move starts in a trial where one already acted
-        out = orig(self, context)
+        n0 = len(context.atoms)
+        try:
+            out = orig(self, context)
+        except Exception:
+            if second:
+                EXCH["second_crashed"] = True
+            raise
         if out:
             EXCH["ok"] += 1
+            EXCH["seq"].append("ins" if len(context.atoms) > n0 else "del")
         return out
 
     ExchangeMove.__call__ = call
